@@ -100,6 +100,18 @@ theorem reader_stops_after_failed_read :
     Gen.pipeShape_reader_afterRead =
       ["for true | if err != nil => send w.done", "for true | if err != nil => return", "for true => send w.done"] := by decide
 
+/-- chR is drained only after BOTH goroutines have stopped (the model's `drainOne` needs writer and reader `exited`):
+    in `worker` the loop that fails the items still waiting in chR comes after the join of the reader AND the writer on
+    either path; the reader itself — deferred code included — takes items out of chR only to read their responses.
+    (A drain on the reader's exit would miss what the still-running writer queues afterwards: the item would survive
+    the reconnect and be matched with the first response of the next connection.) -/
+theorem chR_drained_after_both_stopped :
+    Gen.pipeJoins_worker =
+      ["recv doneW", "case err = <-doneW => conn.Close", "case err = <-doneW => close stopR", "case err = <-doneW => recv doneR",
+       "recv doneR", "case err = <-doneR => conn.Close", "case err = <-doneR => close stopW", "case err = <-doneR => recv doneW",
+       "for len(chs.chR) > 0 => recv chs.chR", "for len(chs.chR) > 0 => send w.done"] ∧
+    Gen.pipeJoins_reader = ["for true => recv chR", "for true | default => recv chR"] := by decide
+
 /-- A streamed body can also be dropped without CloseBodyStream: by ReleaseResponse, by resp.Reset(), or by using the
     same Response for the next Do (which resets it).  For the pool that is the same event as an early close after
     `readK` bytes (`Call.readK`), and the release-vs-close decision must be taken from the framing the body was read
